@@ -602,101 +602,126 @@ func checkC19(p *core.Program, r *core.Report) {
 }
 
 func checkProveStdout(p *core.Program, r *core.Report, ix *funcIndex, prove cliCommand, ps *types.Named) {
-	info := prove.Pkg.TypesInfo
-	var sites []struct {
-		u flow.FuncUnit
-		c *ast.CallExpr
+	act := actionSSA(p, prove)
+	if act == nil {
+		r.Violation("O19.5", "main.cmd:prove: stdout write sites", p.Pos(prove.Lit.Pos()), "cannot locate the action of prove in the SSA program")
+		return
 	}
-	for _, u := range ix.closure([]flow.FuncUnit{prove.Action}) {
-		for _, c := range stdoutWrites(u, true) {
-			if u.Node == prove.Action.Node || !withinNode(prove.Action.Node, c) {
-				sites = append(sites, struct {
-					u flow.FuncUnit
-					c *ast.CallExpr
-				}{u, c})
+	// every path of the action (and of the in-repo functions with stdout writes it calls), with the error's nil-ness at
+	// its end and the stdout writes executed on the way: two sites on exclusive branches of a printing helper are one
+	// write per path; one site in a loop, or a second site on the same path, is two
+	cfg := &stdoutCfg{isWrite: isStdoutWriteSSA, has: stdoutFunctions(p)}
+	mw := runStdoutFlow(p, act, cfg)
+	// the code the command can reach: the action, its closures, and the followed functions
+	within := map[*ssa.Function]bool{}
+	var addFn func(f *ssa.Function)
+	addFn = func(f *ssa.Function) {
+		if f == nil || within[f] {
+			return
+		}
+		within[f] = true
+		for _, a := range f.AnonFuncs {
+			addFn(a)
+		}
+		for _, b := range f.Blocks {
+			for _, in := range b.Instrs {
+				if c, ok := in.(ssa.CallInstruction); ok {
+					if sc := c.Common().StaticCallee(); sc != nil && len(sc.Blocks) > 0 && core.InRepo(pkgPathOf(sc)) {
+						addFn(sc)
+					}
+				}
 			}
 		}
 	}
-	r.Count("prove stdout sites", len(sites))
+	addFn(act)
+	var siteCalls []*ssa.Call
+	for f := range within {
+		for _, b := range f.Blocks {
+			for _, in := range b.Instrs {
+				if c, ok := in.(*ssa.Call); ok && isStdoutWriteSSA(c) {
+					siteCalls = append(siteCalls, c)
+				}
+			}
+		}
+	}
+	sort.Slice(siteCalls, func(i, j int) bool { return siteCalls[i].Pos() < siteCalls[j].Pos() })
+	r.Count("prove stdout sites", len(siteCalls))
 	r.Floor("prove stdout sites", 1)
-	if len(sites) != 1 {
-		var where []string
-		for _, s := range sites {
-			where = append(where, s.u.Name+" "+p.Pos(s.c.Pos()))
-		}
-		r.Violation("O19.5", "main.cmd:prove: stdout write sites", p.Pos(prove.Lit.Pos()), "expected exactly one stdout write reachable from prove through in-repo code, found %d: %s", len(sites), strings.Join(where, ", "))
+	if len(siteCalls) == 0 {
+		r.Violation("O19.5", "main.cmd:prove: stdout write sites", p.Pos(prove.Lit.Pos()), "no stdout write is reachable from prove through in-repo code: the proof is never printed")
 		return
 	}
-	site := sites[0]
-	if site.u.Node != prove.Action.Node {
-		r.Violation("O19.5", "main.cmd:prove: stdout write sites", p.Pos(site.c.Pos()), "the only stdout write is in %s, not in the action: its position on the action's paths cannot be decided", site.u.Name)
+	firstPos := p.Pos(siteCalls[0].Pos())
+	if mw.overflow {
+		r.Undecided("O19.5", "main.cmd:prove: stdout write on paths", firstPos, "too many paths through the action to enumerate")
 		return
 	}
-	g := flow.NewGraph(prove.Action)
-	loc, ok := g.Locate(site.c)
-	if !ok {
-		r.Undecided("O19.5", "main.cmd:prove: stdout write", p.Pos(site.c.Pos()), "stdout write not found in the CFG (inside a function literal?)")
-		return
-	}
-	// path discipline
-	var bad []string
-	if g.LocReaches(loc, loc) && g.ReachableFrom(loc)[loc.B] {
-		bad = append(bad, "the write can execute more than once (it lies on a cycle)")
-	}
+	var bad, und []string
+	seenBad := map[string]bool{}
 	nSucc := 0
-	for _, rt := range g.Returns() {
-		isSuccess := returnIsNilError(info, rt.Ret)
-		if isSuccess {
+	for _, e := range cfg.ends {
+		var msg string
+		switch e.Class {
+		case "success":
 			nSucc++
-			if !g.LocDominates(loc, rt.Loc) {
-				bad = append(bad, "success return at "+p.Pos(rt.Ret.Pos())+" is reachable without writing the proof")
+			if len(e.Writes) == 0 {
+				msg = "success return at " + p.Pos(e.Pos) + " is reachable without writing the proof"
+			} else if len(e.Writes) > 1 {
+				msg = fmt.Sprintf("success return at %s is reachable after %d stdout writes (%s …): stdout no longer holds exactly the proof", p.Pos(e.Pos), len(e.Writes), p.Pos(e.Writes[0]))
 			}
-		} else if g.LocReaches(loc, rt.Loc) {
-			bad = append(bad, "error return at "+p.Pos(rt.Ret.Pos())+" is reachable after the proof was written to stdout")
+		case "fail":
+			if len(e.Writes) > 0 {
+				msg = "error return at " + p.Pos(e.Pos) + " is reachable after the proof was written to stdout at " + p.Pos(e.Writes[0])
+			}
+		default:
+			u := fmt.Sprintf("the action's result at %s is neither certainly nil nor certainly an error (%d stdout write(s) before it)", p.Pos(e.Pos), len(e.Writes))
+			if !seenBad[u] {
+				seenBad[u] = true
+				und = append(und, u)
+			}
+		}
+		if msg != "" && !seenBad[msg] {
+			seenBad[msg] = true
+			bad = append(bad, msg)
 		}
 	}
 	if nSucc == 0 {
 		bad = append(bad, "no success return found")
 	}
-	if len(bad) == 0 {
-		r.OK("O19.5", "main.cmd:prove: stdout write on paths", p.Pos(site.c.Pos()), "single stdout write dominates the %d success return(s), reaches no error return, not on a cycle", nSucc)
-	} else {
-		r.Violation("O19.5", "main.cmd:prove: stdout write on paths", p.Pos(site.c.Pos()), "%s", strings.Join(bad, "; "))
+	sort.Strings(bad)
+	switch {
+	case len(bad) > 0:
+		r.Violation("O19.5", "main.cmd:prove: stdout write on paths", firstPos, "%s", strings.Join(bad, "; "))
+	case len(und) > 0:
+		r.Undecided("O19.5", "main.cmd:prove: stdout write on paths", firstPos, "%s", strings.Join(und, "; "))
+	default:
+		r.OK("O19.5", "main.cmd:prove: stdout write on paths", firstPos, "%d path end(s) enumerated over %d stdout write site(s): every success path writes exactly once, no error path writes", len(cfg.ends), len(siteCalls))
 	}
-	// printed value, on SSA: every origin of what is printed is the byte result of json.Marshal, and every origin of what
-	// that call marshals is the result of a proving-system method (through helpers, generic or not)
-	okChain := false
-	detail := "printed value does not derive from json.Marshal of the prover's result"
-	act := actionSSA(p, prove)
-	var wcall *ssa.Call
-	if act != nil {
-		wcall = callAt(act, site.c.Lparen)
-	}
-	if wcall == nil {
-		detail = "cannot locate the stdout write in the action's SSA"
-	} else {
-		isPSMethod := func(f *ssa.Function) bool {
-			if o := f.Origin(); o != nil {
-				f = o
-			}
-			return ps != nil && f.Signature.Recv() != nil && namedOf(f.Signature.Recv().Type()) == ps
+	// printed value, on SSA: at every site, every origin of what is printed is the byte result of json.Marshal, and every
+	// origin of what that call marshals is the result of a proving-system method (through helpers, generic or not)
+	isPSMethod := func(f *ssa.Function) bool {
+		if o := f.Origin(); o != nil {
+			f = o
 		}
+		return ps != nil && f.Signature.Recv() != nil && namedOf(f.Signature.Recv().Type()) == ps
+	}
+	for _, wcall := range siteCalls {
+		okChain := false
+		detail := "printed value does not derive from json.Marshal of the prover's result"
 		var marshals []*ssa.Call
 		okPrinted := true
-		nArgs := 0
 		for _, a := range wcall.Common().Args {
-			if isOsVarSSA(a) {
+			if isStdoutValue(a) {
 				continue
 			}
-			for _, o := range ssaOrigins(a, nil) {
-				nArgs++
+			for _, o := range ssaOriginsIPWithin(p, a, nil, within) {
 				c, isCall := o.V.(*ssa.Call)
 				if isCall && c.Common().StaticCallee() != nil && c.Common().StaticCallee().String() == "encoding/json.Marshal" && o.Index == 0 {
 					marshals = append(marshals, c)
 					continue
 				}
 				if k, isConst := o.V.(*ssa.Const); isConst && k.Value != nil {
-					// a line terminator after the document is part of "one JSON proof per line"
+					// a line terminator / indentation after the document is part of "one JSON proof on stdout"
 					if k.Value.Kind() == constant.String && strings.TrimSpace(constant.StringVal(k.Value)) == "" {
 						continue
 					}
@@ -718,7 +743,7 @@ func checkProveStdout(p *core.Program, r *core.Report, ix *funcIndex, prove cliC
 			for _, m := range marshals {
 				arg := m.Common().Args[0]
 				n := 0
-				for _, o := range ssaOrigins(arg, isPSMethod) {
+				for _, o := range ssaOriginsIPWithin(p, arg, isPSMethod, within) {
 					c, isCall := o.V.(*ssa.Call)
 					if isCall && c.Common().StaticCallee() != nil && isPSMethod(c.Common().StaticCallee()) && o.Index <= 0 {
 						n++
@@ -744,8 +769,12 @@ func checkProveStdout(p *core.Program, r *core.Report, ix *funcIndex, prove cliC
 				}
 			}
 		}
+		cn := "main.cmd:prove: printed value"
+		if len(siteCalls) > 1 {
+			cn = fmt.Sprintf("main.cmd:prove: printed value (%s)", core.FuncName(wcall.Parent()))
+		}
+		r.Check(okChain, "O19.5", cn, p.Pos(wcall.Pos()), detail, detail)
 	}
-	r.Check(okChain, "O19.5", "main.cmd:prove: printed value", p.Pos(site.c.Pos()), detail, detail)
 }
 
 // hasMethod reports whether encoding/json would find method `name` for a value of static type t passed in an interface:
